@@ -120,5 +120,7 @@ class Unit:
         self.notes = notes
 
 
-TAG_RE = re.compile(r'\[(C\d\d(?:\.[A-Za-z0-9_\-]+)*)\]')
+# `[Cnn.a.b]` names a clause of property Cnn; `[pin.a.b]` names PINNED behaviour that belongs to no property (what the code does where the property is silent):
+# a failing pin clause is recorded in the evidence as failing for no claimed property and is never an alarm
+TAG_RE = re.compile(r'\[((?:C\d\d|pin)(?:\.[A-Za-z0-9_\-]+)*)\]')
 GTAG_RE = re.compile(r'\[([a-z][a-z0-9_\-]*)\]')
